@@ -64,6 +64,8 @@ FIXED = [
 ]
 
 KNOWN = [
+    ('C13', 'reader/nobom-utf8/text-with-nul-misdetected',
+     'a BOM-less UTF-8 stream that starts with an ASCII character and contains U+0000 further on (e.g. 61 62 00 63) is detected as UTF-16/32: DetectEncoding analyses the zero-byte pattern of the whole first chunk, not of the first character. Deciding on the first character only was tried and reverted: it breaks upstream tests that rely on detecting BOM-less UTF-16 text starting with a non-ASCII (Cyrillic) character'),
     ('C08', 'xml/writer/carriage-return-written-raw',
      'XML text that contains U+000D (e.g. vector<string>{"S\\rR"}) is written with a raw CR byte by pugixml (node_pcdata is escaped only for <, >, & and other control characters); every conforming parser (expat) normalises it to U+000A (XML 1.0 section 2.11), and the library itself reads it back as LF (parse_eol). Third-party writer behaviour: pugixml has no format flag that emits &#13; in PCDATA'),
     ('C08', 'json/double-parsed-inexactly',
